@@ -167,7 +167,7 @@ func checkC03(w *World) {
 			w.filterLoops(P, fn, r)
 		}
 	}
-	w.floorSites(P, "R03.4", 10)
+	w.floorSites(P, "R03.4", 6)
 	// R03.5 concatenations stored by handlers
 	docRule(P, "R03.5", "P", "a node-set that a handler stores as the context result after concatenating several node-sets (append of a slice with ...) passed through the forward normaliser on every path; the union builds its concatenation in a slice allocated by the handler (appending onto an operand would reorder the caller's variable).")
 	n5 := 0
@@ -362,7 +362,7 @@ func checkC03(w *World) {
 	// abbreviated steps (@, .., //, implicit child) collect only through the normalising selectors
 	w.include(P, "C01", "R01.4")
 	// two nodes are duplicates when their positions are equal: every node must get a position of its own
-	w.include(P, "C10", "R10.4")
+	w.include(P, "C10", "R10.4", "R10.10")
 }
 
 // dedupeShape: fn(slice) returns a slice to which elements of the input are appended under Pos() != Pos()
